@@ -9,6 +9,7 @@ import vlib
 
 PROP_V = 'properties/C08.v'
 OP_CANON = 110
+OP_GAUGE = 82
 
 
 def flags_ok(psi, model_flags):
@@ -183,6 +184,30 @@ def numeric(ctx, quick):
         ctx.case(dict(desc0, kind='canonical-numeric'), nontrivial=True)
         if not np.isclose(psi0.norm(), nv0, rtol=1e-9):
             ctx.violation('norm() = %r differs from the dense norm %r (%s %s N=%d)' % (psi0.norm(), nv0, fam, sym, N), dict(desc0, kind='norm'))
+        # neighbouring tensors that disagree on the sectors of their common bond (a window of charges projected out on one side): every tensor is
+        # still an isometry on its own, the state lost weight
+        if sym != 'dense' and N >= 2:
+            for to in ('first', 'last'):
+                phi = psi0.copy()
+                phi.canonize_(to=to, normalize=False)
+                m = rng.randint(1, N - 1)
+                ax = 0 if to == 'first' else 2          # the bond between m-1 and m, seen from the tensor that stays an isometry
+                site = m if to == 'first' else m - 1
+                lg = phi[site].get_legs(ax)
+                if len(lg.t) >= 2:
+                    keep = sorted(rng.sample(range(len(lg.t)), rng.randint(1, len(lg.t) - 1)))
+                    sub = yastn.Leg(phi.config, s=lg.s, t=[lg.t[i] for i in keep], D=[lg.D[i] for i in keep])
+                    P = yastn.eye(phi.config, legs=[sub, sub.conj()], isdiag=False)
+                    A = phi[site]
+                    phi[site] = yastn.tensordot(P, A, axes=(1, 0)) if ax == 0 else yastn.tensordot(A, P, axes=(2, 1)) if A.ndim == 3 else \
+                        yastn.tensordot(A, P, axes=(2, 1)).transpose(axes=(0, 1, 3, 2))
+                    w = mgen.dense_state(phi, ops).reshape(-1)
+                    ctx.count('sector-window')
+                    for nm, val in (('norm()', phi.norm()), ('sqrt(vdot(psi, psi))', abs(mps.vdot(phi, phi)) ** 0.5), ('factor after canonize_(normalize=False)', phi.copy().canonize_(to=to, normalize=False).factor)):
+                        if not np.isclose(val, np.linalg.norm(w), rtol=1e-9, atol=1e-12 * scale):
+                            ctx.violation('%s = %r differs from the dense norm %r for a chain whose tensors %d and %d carry different sectors on their bond (%s %s N=%d, canonical to %s)' % (
+                                nm, val, np.linalg.norm(w), m - 1, m, fam, sym, N, to), dict(desc0, kind='sector-window', to=to, m=m, keep=keep))
+                            break
         if not is_mpo and N >= 2:
             d = sum(ops.space().D)
             T = (v0 / nv0).reshape([d] * N)
@@ -248,7 +273,11 @@ def numeric(ctx, quick):
                         psi = psi0.copy()
                         psi.canonize_(to=opp, normalize=False)
                         Dcut = rng.randint(1, Dmax - 1)
-                        disc = psi.truncate_(to=to, opts_svd={'D_total': Dcut}, normalize=normalize)
+                        # every documented way of saying it; a partial-SVD policy must not change what is reported
+                        osvd = rng.choice([{'D_total': Dcut}, {'D_total': Dcut}, {'D_total': Dcut, 'D_block': Dcut, 'policy': 'lowrank'},
+                                           {'D_total': Dcut, 'D_block': max(1, Dcut - 1), 'policy': 'lowrank'}, {'D_total': Dcut, 'tol': 1e-3}, {'D_total': Dcut, 'tol_block': 1e-3}])
+                        ctx.count('truncate:opts:' + '+'.join(sorted(osvd)))
+                        disc = psi.truncate_(to=to, opts_svd=osvd, normalize=normalize)
                         v = mgen.dense_state(psi, ops).reshape(-1)
                         ctx.count('truncate:binding')
                         if normalize:
@@ -259,21 +288,127 @@ def numeric(ctx, quick):
                         else:
                             true = np.linalg.norm(v0 - v) / nv0
                         if not np.isclose(disc, true, rtol=1e-6, atol=1e-8):
-                            ctx.violation('truncate_(to=%s, D_total=%d, normalize=%s) reports discarded weight %r, the true relative distance is %r (%s %s N=%d)' % (
-                                to, Dcut, normalize, disc, true, fam, sym, N), dict(desc0, kind='truncate-error', to=to, normalize=normalize, D_total=Dcut))
+                            ctx.violation('truncate_(to=%s, opts_svd=%r, normalize=%s) reports discarded weight %r, the true relative distance is %r (%s %s N=%d)' % (
+                                to, osvd, normalize, disc, true, fam, sym, N), dict(desc0, kind='truncate-error', to=to, normalize=normalize, D_total=Dcut, opts_svd=osvd))
                         if max(psi.get_bond_dimensions()) > Dcut:
                             ctx.violation('truncate_(D_total=%d) left a bond of dimension %d' % (Dcut, max(psi.get_bond_dimensions())), dict(desc0, kind='truncate-limit'))
+
+
+def gauge_correspondence(ctx, st, quick):
+    """(a) exact: an integer central block on a bond of an integer MPS, absorbed by the REAL absorb_central_ into either neighbour, vs the model's explicit
+    central site and its absorb_right / absorb_left (opcode 82), amplitude by amplitude; (b) the premise of the gauge theorems on every real
+    orthogonalize_site_: old site tensor = Q . (nR C) resp. (nR C) . Q blockwise, nR = growth of the prefactor"""
+    import itertools, yastn, yastn.tn.mps as mps, mgen, tgen
+    rng = ctx.rng
+    jobs, src = [], []
+    for rep in range(40 if quick else 500):
+        fam, sym = rng.choice(mgen.FAMILIES)
+        ops = mgen.operators(fam, sym)
+        N = rng.randint(2, 4)
+        try:
+            psi = mgen.int_mps(rng, ops, N, D_total=rng.randint(1, 4), n=rng.choice(mgen.admissible_charges(ops, N)))
+        except Exception:
+            continue
+        if psi.virtual_leg('first').D != (1,) or psi.virtual_leg('last').D != (1,):
+            continue
+        k = rng.randint(0, N - 2)
+        lA, lB = psi[k].get_legs(2).conj(), psi[k + 1].get_legs(0).conj()
+        try:
+            C = yastn.rand(psi.config, legs=[lA, lB])
+        except yastn.YastnError:
+            continue
+        if C.size == 0:
+            continue
+        tgen.int_fill(rng, C, lo=-2, hi=2)
+        to_last = rng.random() < 0.5
+        # bond spaces: the union of what both sides report (the two sides of C are different spaces)
+        sp = ops.space()
+        LA = yastn.legs_union(psi[k].get_legs(2), C.get_legs(0).conj())
+        LB = yastn.legs_union(C.get_legs(1).conj(), psi[k + 1].get_legs(0))
+        sites = []
+        for i in range(N):
+            lg = {1: sp}
+            if i > 0:
+                lg[0] = LB if i == k + 1 else yastn.legs_union(psi[i - 1].get_legs(2).conj(), psi[i].get_legs(0))
+            if i < N - 1:
+                lg[2] = LA if i == k else yastn.legs_union(psi[i].get_legs(2), psi[i + 1].get_legs(0).conj())
+            d = psi[i].to_numpy(legs=lg)
+            sites.append([int(d.shape[2]), [[[int(x) for x in row] for row in d[:, s_, :]] for s_ in range(d.shape[1])]])
+        Cm = C.to_numpy(legs={0: LA.conj(), 1: LB.conj()})
+        dloc = sum(sp.D)
+        sigmas = [list(s_) for s_ in itertools.product(range(dloc), repeat=N)]
+        if len(sigmas) > 80:
+            sigmas = [sigmas[i] for i in sorted(rng.sample(range(len(sigmas)), 80))]
+        phi = psi.shallow_copy()
+        phi.A[(k, k + 1)] = C
+        phi.pC = (k, k + 1)
+        phi.absorb_central_(to='last' if to_last else 'first')
+        dn = mgen.dense_state(phi, ops)
+        impl = [[int(dn[tuple(s_)])] * 2 for s_ in sigmas]
+        desc = dict(kind='central-block', family=fam, sym=sym, N=N, bond=k, to='last' if to_last else 'first', rep=rep)
+        jobs.append((OP_GAUGE, [sites, [[int(x) for x in row] for row in Cm], int(Cm.shape[1]), k, int(to_last), sigmas]))
+        src.append((desc, impl))
+        ctx.case(desc, nontrivial=True)
+        ctx.count('central-block:' + ('last' if to_last else 'first'))
+    bad = []
+    if st['model_ok'] and jobs:
+        mo = vlib.run_model(jobs, shards=8)
+        for (desc, impl), m in zip(src, mo):
+            if m != impl:
+                i = next(i for i, (u, v) in enumerate(zip(m, impl)) if u != v)
+                bad.append(dict(desc=desc, first=dict(model_explicit_and_absorbed=m[i], impl_after_absorb_central=impl[i])))
+        small = [(op, arg, out) for (op, arg), out in zip(jobs, mo) if len(vlib.to_sx(arg)) < 3000][:8]
+        ok, idx, ns = vlib.coq_sample('C08g', small)
+        ctx.extra['coq_vm_sample_gauge'] = dict(n=ns, mismatches=len(idx), ok=ok)
+        if not ok and not bad:
+            ctx.broken.append('in-Coq vm_compute sample (gauge) disagrees with the extracted driver at %r' % idx[:5])
+    ctx.extra['gauge_correspondence'] = dict(cases=len(jobs), disagreements=len(bad))
+    # (b) premise of the theorems on real QR moves
+    for rep in range(40 if quick else 500):
+        fam, sym = rng.choice(mgen.FAMILIES)
+        ops = mgen.operators(fam, sym)
+        N = rng.randint(2, 5)
+        is_mpo = rng.random() < 0.3
+        try:
+            psi = mgen.int_mps(rng, ops, N, D_total=rng.randint(2, 5), n=rng.choice(mgen.admissible_charges(ops, N)), cplx=rng.random() < 0.3) if not is_mpo \
+                else mgen.int_mps(rng, ops, N, D_total=3, nr_phys=2)
+        except Exception:
+            continue
+        for n_ in range(N):
+            psi[n_]._data = psi[n_]._data + 0.25 * np.sin(1.0 + np.arange(psi[n_].size) * (n_ + 1))
+        to = rng.choice(['first', 'last'])
+        n = rng.randint(1, N - 1) if to == 'first' else rng.randint(0, N - 2)
+        A0, f0 = psi[n], psi.factor
+        psi.orthogonalize_site_(n, to=to, normalize=False)
+        Q, C = psi[n], psi[psi.pC]
+        nR = psi.factor / f0
+        if to == 'last':
+            QR = yastn.tensordot(Q, C, axes=(2, 0))
+            if is_mpo:
+                QR = QR.transpose(axes=(0, 1, 3, 2))
+        else:
+            QR = yastn.tensordot(C, Q, axes=(1, 0))
+        ctx.count('premise:factorisation:' + to)
+        err = float((A0 - nR * QR).norm())
+        if err > 1e-11 * max(1.0, float(A0.norm())):
+            ctx.violation('orthogonalize_site_(%d, to=%s): the old site tensor differs from Q . (nR C) by %.3g (%s %s N=%d %s) -- the premise of the gauge theorems fails' % (
+                n, to, err, fam, sym, N, 'MPO' if is_mpo else 'MPS'), dict(kind='gauge-premise', family=fam, sym=sym, N=N, n=n, to=to, mpo=is_mpo, rep=rep))
+    return bad
 
 
 def run(ctx):
     st = vlib.prepare(ctx, PROP_V)
     quick = ctx.tier == 'quick'
     ctx.cov['rule'] = ('MPS and MPO of every operator family x symmetry, N = 1..6, generic float data, non-unit factors: random sequences of canonize_/orthogonalize_site_/'
-                       'absorb_central_ in both directions (trace of pC and canonical flags vs the Coq gauge machine); dense state, isometries, factor, norm(), Schmidt values '
+                       'absorb_central_ in both directions (trace of pC and canonical flags vs the Coq gauge machine); integer central blocks absorbed by absorb_central_ vs the Coq '
+                       'model of the move (exact); A = Q.R premise of the gauge theorems on real orthogonalize_site_ calls; dense state, isometries, factor, norm(), Schmidt values '
                        'and entropies across every cut vs numpy; truncate_ with non-binding and binding limits in both directions, normalize on/off, prepared in the opposite '
                        'canonical form. non-trivial = N >= 2; distinct by (family, symmetry, N, seed)')
     bad = trace_correspondence(ctx, st, quick)
+    badg = gauge_correspondence(ctx, st, quick)
     numeric(ctx, quick)
+    if badg and not ctx.violations:
+        ctx.violation('central block / absorb_central_: model and implementation disagree: %r' % (badg[0],), dict(kind='correspondence', first=badg[:3]))
     if bad and not ctx.violations:
         ctx.violation('gauge state machine: model and implementation disagree: %r' % (bad[0],), dict(kind='correspondence', first=bad[:3]))
     if ctx.broken and not ctx.violations:
